@@ -52,3 +52,5 @@ mod c12;
 mod c02;
 #[cfg(kani)]
 mod c20;
+#[cfg(kani)]
+mod c06;
